@@ -180,4 +180,83 @@ class FieldToAst(Contract):
                     undetermined=[], pre_ok=True, outcome={"failures": r["failures"][:3]}, error=None)
 
 
-CONTRACTS = [FormatVariableName(), ArgumentToAst(), BuildFieldName(), FieldToAst()]
+RENDERED = z3.Function("builder_rendered_field", V.Val, V.Val, V.Val, V.Val)      # (field, index, name set) -> FieldNode
+for _c in (G.InlineFragmentNode, G.NamedTypeNode):
+    if _c not in V.REG.by_cls:
+        V.REG.register(_c, [k for k in _c.keys if k != "loc"])
+
+
+class ToAstAtCalls(Contract):
+    """stand-in for GraphQLField.to_ast where _build_selections calls it on its children: some field node that depends on the
+    child, the index and the name set it is given (to_ast itself is under contract above)"""
+    target = MOD + "GraphQLField.to_ast"
+    assumed = True
+
+    def result_term(self, A):
+        return RENDERED(A.self, A.idx, A.used_names)
+
+
+def _node(cls, **kw):
+    fields = {k: V.VNone for k in V.REG.info(cls).fields}
+    fields.update(kw)
+    return mk(cls, **fields)
+
+
+rendered_children = SpecMap("builder_rendered_children", lambda c, i, u: RENDERED(c, i, u), param_sorts=(V.Val, V.Val))
+
+
+def _inline_fragment(p, i, u):
+    return _node(G.InlineFragmentNode, type_condition=_node(G.NamedTypeNode, name=_node(G.NameNode, value=V.pkey(p))),
+                 selection_set=_node(G.SelectionSetNode, selections=V.VTuple(rendered_children(V.vt(V.pval(p)), i, u))))
+
+
+rendered_fragments = SpecMap("builder_rendered_fragments", _inline_fragment, param_sorts=(V.Val, V.Val))
+
+
+class BuildSelections(Contract):
+    """every sub-field rendered, in order, then one inline fragment per type condition, in order, each holding its own
+    sub-fields in order - all for the same index and the same name set (nothing is dropped when a field has both)"""
+    props = ("C14",)
+    target = MOD + "GraphQLField._build_selections"
+    frame_args = False
+
+    def setup(self, E):
+        child = Cls(BO.GraphQLField)
+        s = self_obj(BO.GraphQLField, dict(_subfields=E.sym("subfields", ListOf(child, name="builder_subfields")),
+                                           _inline_fragments=E.sym("inline_fragments", DictOf(GQ.NAME, TupleOf(child, name="builder_fragment_children"),
+                                                                                               name="builder_inline_fragments"))))
+        return [s, E.sym_int("idx"), E.mset("used_names", Str)], {}
+
+    @property
+    def loops(self):
+        seen = {}
+
+        def inv(rest, xs, st, I, env):
+            i, u = V.lower(env.lookup("idx")), V.lower(env.lookup("used_names"))
+            me = V.lower(env.lookup("self"))
+            subs = V.vl(V.attr_of(me, BO.GraphQLField, "_subfields"))
+            cur = V.vl(st["selections"]) if "selections" in st else V.VNil
+            rs = z3.simplify(rest)
+            if z3.is_app(rs) and rs.decl().name() == "VCons":
+                seen[id(I.p)] = rs.arg(0)
+            if id(I.p) in seen:     # the inner comprehension over this item's children (known once the body has run): map extensionality
+                rendered_children.apply(I.p, z3.simplify(V.vt(V.pval(seen[id(I.p)]))), i, u)
+            rendered_children.apply(I.p, subs, i, u)
+            return append_map_inv(cur, rest, xs, rendered_fragments, (i, u), init=rendered_children(subs, i, u))
+        return {"GraphQLField._build_selections": inv}
+
+    def ensures(self, A, res):
+        me, i, u = A.self, A.idx, A.used_names
+        subs = V.vl(V.attr_of(me, BO.GraphQLField, "_subfields"))
+        frags = V.vd(V.attr_of(me, BO.GraphQLField, "_inline_fragments"))
+        return {"sub-fields-then-one-inline-fragment-per-type-condition-all-in-order-same-index-and-name-set":
+                res == V.VList(V.vl_concat(rendered_children(subs, i, u), rendered_fragments(frags, i, u)))}
+
+    def replay_custom(self, inputs):
+        from .e2e_builder import bounded_builder
+        r = bounded_builder("quick", 0)
+        return dict(inputs={"scenario": "builder expression trees"}, failed=["post.sub-fields-then-one-inline-fragment-per-type-condition-all-in-order-same-index-and-name-set"] if r["failed"] else [],
+                    undetermined=[], pre_ok=True, outcome={"failures": r["failures"][:3]}, error=None)
+
+
+CONTRACTS = [FormatVariableName(), ArgumentToAst(), BuildFieldName(), FieldToAst(), BuildSelections(), ToAstAtCalls()]
